@@ -235,11 +235,30 @@ func degenerateModel(rng *rand.Rand) *openfgav1.AuthorizationModel {
 			}
 		case 10:
 			if td.Metadata != nil {
+				// restrictions that name no type - a nil entry, an empty reference, one with only a condition or only
+				// a relation - first, in the middle or last in the list
 				for _, rm := range td.Metadata.Relations {
-					if rm != nil {
-						rm.DirectlyRelatedUserTypes = append(rm.DirectlyRelatedUserTypes, nil, &openfgav1.RelationReference{})
+					if rm == nil || rng.Intn(3) == 0 {
+						continue
 					}
-					break
+					var untyped *openfgav1.RelationReference
+					switch rng.Intn(4) {
+					case 0:
+						untyped = nil
+					case 1:
+						untyped = &openfgav1.RelationReference{}
+					case 2:
+						untyped = &openfgav1.RelationReference{Condition: "c1"}
+					default:
+						untyped = &openfgav1.RelationReference{RelationOrWildcard: &openfgav1.RelationReference_Relation{Relation: "member"}}
+					}
+					k := 0
+					if n := len(rm.DirectlyRelatedUserTypes); n > 0 && rng.Intn(2) == 0 {
+						k = rng.Intn(n + 1)
+					}
+					list := append([]*openfgav1.RelationReference{}, rm.DirectlyRelatedUserTypes[:k]...)
+					list = append(list, untyped)
+					rm.DirectlyRelatedUserTypes = append(list, rm.DirectlyRelatedUserTypes[k:]...)
 				}
 			}
 		case 11:
